@@ -48,6 +48,7 @@ ENTRIES: Dict[str, List[Tuple[str, str]]] = {
     "C09": [("parser_v2", "write_pdb"), ("parser_v2", "write_cif"), ("parser_v2", "parse_pdb_atoms"), ("parser_v2", "parse_cif_atoms")],
     "C10": [("parser_v2", "fit_to_pdb"), ("parser_v2", "can_write_pdb")],
     "C11": [("annotator", "find_pairs"), ("annotator", "find_stackings"), ("annotator", "extract_base_interactions")],
+    "C12": [("common", "BpSeq.*"), ("common", "DotBracket.*")],
     "C13": [("common", "BpSeq.convert_to_dot_bracket"), ("common", "BpSeq.fcfs")],
     "C15": [("parser", "read_3d_structure"), ("parser_v2", "parse_pdb_atoms"), ("parser_v2", "parse_cif_atoms"), ("tertiary_v2", "Structure.*"), ("tertiary_v2", "Residue.*")],
     "C16": [("common", "BpSeq.all_dot_brackets")],
